@@ -51,6 +51,7 @@ type Reader struct {
 	pos   int              // 当前读取位置
 	order binary.ByteOrder // 字节序
 	err   error            // 读取过程中遇到的错误
+	elems int              // 已为切片分配的元素总数（不得超过输入字节数，防止嵌套的零字节元素切片造成平方级开销）
 }
 
 // NewReaderFromPool 从池中获取一个读取器
@@ -456,6 +457,13 @@ func (r *Reader) readReflect(v interface{}) error {
 			r.err = io.ErrUnexpectedEOF
 			return r.err
 		}
+		// 不占线上字节的元素（如 struct{}）不受上面检查的约束：嵌套时每个内层切片都可以再次声明"剩余字节数"个元素，
+		// 因此再限制一次读取过程中分配的元素总数不超过输入长度，保证开销与输入成线性关系
+		r.elems += int(length)
+		if r.elems > len(r.buf) {
+			r.err = io.ErrUnexpectedEOF
+			return r.err
+		}
 
 		// 创建切片并读取每个元素
 		slice := reflect.MakeSlice(rv.Type(), int(length), int(length))
@@ -632,4 +640,5 @@ func (r *Reader) Reset(data []byte) {
 	r.buf = data
 	r.pos = 0
 	r.err = nil
+	r.elems = 0
 }
